@@ -317,11 +317,17 @@ impl Shapes {
 
     /// Does the type of the rule implement PegPosition (needed for enum overrides with @position)?
     pub fn has_position_impl(&self, rule: &str) -> bool {
+        self.has_position_impl_d(rule, 0)
+    }
+    fn has_position_impl_d(&self, rule: &str, depth: usize) -> bool {
+        if depth > self.kinds.len() + 1 {
+            return false;
+        }
         match self.kinds.get(rule) {
             Some(Kind::StrPos) => true,
             Some(Kind::Struct { position, .. }) => *position,
             Some(Kind::Enum { position, .. }) => *position,
-            Some(Kind::Alias { typ, boxed: false, arity: Arity::One }) => self.has_position_impl(typ),
+            Some(Kind::Alias { typ, boxed: false, arity: Arity::One }) => self.has_position_impl_d(typ, depth + 1),
             _ => false,
         }
     }
